@@ -12,6 +12,8 @@ from pyvc.core import SV, And, Declined, If, Implies, Not, Or, Unsupported, deep
 
 from . import models as M
 from .arrays import OpsArrayNS, SArr, fresh_array, fresh_index, in_range, permute
+from .arrays import cat as arr_cat
+from .arrays import stack as arr_stack
 from .c_terms import MTerm, NumberM, make_super
 from .models import MDom, make_domain
 
@@ -2003,4 +2005,190 @@ class EagerGetitemTensorTensor(Contract):
             evi = list(idx[len(names):])
             evi.insert(off, yv)
             cl.append(("each_operand_read_at_its_own_named_coordinates", Implies(in_range(idx, shape), result.data.get(idx) == ctx.x.data.get(tuple(b[n] for n in ln) + tuple(evi)))))
+        return cl
+
+
+# ==================================================================================================
+# ops.stack / ops.cat of Tensors (Finitary rules): the dim argument counts OUTPUT dims, batch dims are on the left
+# ==================================================================================================
+class _FinOp:
+    def __init__(self, **defaults):
+        self.defaults = defaults
+
+
+def align_tensors_expand_model(*args, **kwargs):
+    """align_tensors(*parts, expand=True): as align_tensors_model, with inputs an operand lacks broadcast to their full size"""
+    inputs = OrderedDict()
+    for x in args:
+        inputs.update(x.inputs)
+    names = list(inputs)
+    out = []
+    for x in args:
+        old = list(x.inputs)
+        ev = x.data.shape[len(old):]
+        shape = tuple(inputs[n].dtype for n in names) + tuple(ev)
+
+        def get(idx, x=x, old=old):
+            return x.data.get(tuple(idx[names.index(o)] for o in old) + tuple(idx[len(names):]))
+
+        out.append(SArr(shape, get, x.data.dtype))
+    return inputs, out
+
+
+class _StackCatBase(Contract):
+    props = ("C01",)
+    file = "funsor/tensor.py"
+    total = True
+    max_paths = 3000
+
+    def mk_parts(self, p, ins, e, cat_pos=None):
+        es = tuple(sizes(p, e, "e"))
+        gs = {}
+        parts = []
+        for k, names in enumerate(ins):
+            for nm in names:
+                if nm not in gs:
+                    s = p.fresh_int("g_" + nm)
+                    p.assume(s >= 1)
+                    gs[nm] = s
+            ev = list(es)
+            if cat_pos is not None:
+                c = p.fresh_int("c%d" % k)
+                p.assume(c >= 1)
+                ev[cat_pos] = c
+            t = TensorM.__new__(TensorM)
+            t.inputs = OrderedDict((nm, MDom(gs[nm], ())) for nm in names)
+            t.output = MDom("real", tuple(ev))
+            t.dtype = "real"
+            t.data = fresh_array(p, "part%d" % k, tuple(gs[nm] for nm in names) + tuple(ev))
+            parts.append(t)
+        return parts, gs, es
+
+
+@register
+class EagerFinitaryStack(_StackCatBase):
+    """eager_finitary_stack(op, parts) -- ops.stack of Tensors --: with `dim` counting the dims of the OUTPUT (dim >= 0 from the
+    left of the output shape, dim < 0 from its right; the named batch dims are never counted), the result has inputs = the
+    union of the parts' inputs, output shape = the parts' output shape with a new dim of size len(parts) at `dim`, and
+      result[named point][event idx with k inserted at dim] == part_k[named point][event idx]     for every point and index.
+    Parts whose aligned shapes differ (an input missing from one part) are rejected by the backend stack.
+    structure bound: 2..3 parts over <= 2 names in equal / permuted order, event rank 0..2, every dim in range."""
+
+    qualname = "eager_finitary_stack"
+    mutants = (
+        ("nonnegative dim handed to the backend as is (seeded C01_stack_dim_batch)", "    if dim >= 0:\n        event_dim = max(len(part.output.shape) for part in parts)\n        dim = dim - event_dim - 1\n    assert dim < 0\n", ""),
+        ("nonnegative dim converted without the new dim", "        dim = dim - event_dim - 1", "        dim = dim - event_dim if event_dim else -1"),
+    )
+
+    def structures(self, tier):
+        for ins in (("", ""), ("a", "a"), ("ab", "ab"), ("ab", "ba"), ("a", "a", "a"), ("ab", "ba", "ab")):
+            for e in (0, 1, 2):
+                if tier == "quick" and e == 2 and len(ins) == 3:
+                    continue
+                for dim in range(-(e + 1), e + 1):
+                    yield "parts=%s,event=%d,dim=%d" % ([i or "-" for i in ins], e, dim), (ins, e, dim)
+
+    def build(self, p, st):
+        ins, e, dim = st
+        parts, gs, es = self.mk_parts(p, ins, e)
+
+        class Ops:
+            stack = staticmethod(arr_stack)
+
+        ns = dict(TENSOR_NS, ops=Ops, align_tensors=align_tensors_model, max=max, len=len)
+        return Ctx(args=(_FinOp(dim=dim), tuple(parts)), namespace=ns, parts=parts, gs=gs, es=es, st=st, p=p)
+
+    def ensures(self, ctx, result):
+        ins, e, dim = ctx.st
+        if not isinstance(result, TensorM):
+            return [("returns_tensor", False)]
+        union = []
+        for names in ins:
+            for nm in names:
+                if nm not in union:
+                    union.append(nm)
+        pos = dim if dim >= 0 else e + 1 + dim
+        ev = tuple(ctx.es[:pos]) + (len(ins),) + tuple(ctx.es[pos:])
+        shape = tuple(ctx.gs[n] for n in union) + ev
+        cl = [("inputs_are_the_union", list(result.inputs) == union), ("output_shape_has_the_new_dim_at_dim", deep_eq(tuple(result.data.shape), shape))]
+        if len(result.data.shape) == len(shape):
+            idx = fresh_index(ctx.p, shape)
+            nb = len(union)
+            vals = []
+            for t, names in zip(ctx.parts, ins):
+                eidx = tuple(idx[nb:nb + pos]) + tuple(idx[nb + pos + 1:])
+                vals.append(t.data.get(tuple(idx[union.index(nm)] for nm in names) + eidx))
+            from .arrays import select
+
+            cl.append(("element_k_along_dim_is_part_k_at_the_same_point", Implies(in_range(idx, shape), result.data.get(idx) == select(idx[nb + pos], vals))))
+        return cl
+
+
+@register
+class EagerFinitaryCat(_StackCatBase):
+    """eager_finitary_cat(op, parts) -- ops.cat of Tensors --: with `axis` counting the dims of the OUTPUT (never the named
+    batch dims), the result has inputs = the union of the parts' inputs (a part lacking an input is broadcast along it),
+    output shape = the parts' output shape with the sizes along `axis` added, and result[named point][.. i ..] == the part
+    that position i falls into, at the same named point and i minus the sizes of the parts before it.
+    structure bound: 2..3 parts over <= 2 names (equal, permuted, one part lacking a name), event rank 1..2, every axis."""
+
+    qualname = "eager_finitary_cat"
+    mutants = (
+        ("nonnegative axis handed to the backend as is", "    if dim >= 0:\n        event_dims = {len(part.output.shape) for part in parts}\n        assert len(event_dims) == 1, \"undefined\"\n        dim = dim - next(iter(event_dims))\n    assert dim < 0\n", ""),
+        ("parts not broadcast to the joint inputs", "    inputs, raw_parts = align_tensors(*parts, expand=True)", "    inputs, raw_parts = align_tensors(*parts)"),
+    )
+
+    def structures(self, tier):
+        for ins in (("", ""), ("a", "a"), ("ab", "ba"), ("a", ""), ("a", "ab"), ("a", "a", "a"), ("ab", "b", "ba")):
+            for e in (1, 2):
+                if tier == "quick" and e == 2 and len(ins) == 3:
+                    continue
+                for dim in range(-e, e):
+                    yield "parts=%s,event=%d,axis=%d" % ([i or "-" for i in ins], e, dim), (ins, e, dim)
+
+    def build(self, p, st):
+        ins, e, dim = st
+        pos = dim if dim >= 0 else e + dim
+        parts, gs, es = self.mk_parts(p, ins, e, cat_pos=pos)
+
+        class Ops:
+            cat = staticmethod(arr_cat)
+
+        def align_tensors(*args, **kwargs):
+            return align_tensors_expand_model(*args) if kwargs.get("expand", False) else align_tensors_model(*args)
+
+        ns = dict(TENSOR_NS, ops=Ops, align_tensors=align_tensors, len=len, next=next, iter=iter)
+        return Ctx(args=(_FinOp(axis=dim), tuple(parts)), namespace=ns, parts=parts, gs=gs, es=es, st=st, p=p, pos=pos)
+
+    def ensures(self, ctx, result):
+        ins, e, dim = ctx.st
+        if not isinstance(result, TensorM):
+            return [("returns_tensor", False)]
+        union = []
+        for names in ins:
+            for nm in names:
+                if nm not in union:
+                    union.append(nm)
+        pos = ctx.pos
+        lens = [t.output.shape[pos] for t in ctx.parts]
+        total_len = lens[0]
+        for l in lens[1:]:
+            total_len = total_len + l
+        ev = tuple(ctx.es[:pos]) + (total_len,) + tuple(ctx.es[pos + 1:])
+        shape = tuple(ctx.gs[n] for n in union) + ev
+        cl = [("inputs_are_the_union", list(result.inputs) == union), ("output_shape_adds_the_sizes_along_axis", deep_eq(tuple(result.data.shape), shape))]
+        if len(result.data.shape) == len(shape):
+            idx = fresh_index(ctx.p, shape)
+            nb = len(union)
+            i = idx[nb + pos]
+            off = 0
+            expect = None
+            conds = []
+            for t, names, l in zip(ctx.parts, ins, lens):
+                eidx = tuple(idx[nb:nb + pos]) + (i - off,) + tuple(idx[nb + pos + 1:])
+                v = t.data.get(tuple(idx[union.index(nm)] for nm in names) + eidx)
+                conds.append((And(off <= i, i < off + l), v))
+                off = off + l
+            f = And(*[Implies(c, result.data.get(idx) == v) for c, v in conds])
+            cl.append(("position_i_comes_from_the_part_it_falls_into", Implies(in_range(idx, shape), f)))
         return cl
